@@ -17,6 +17,27 @@ class Roles:
         self.bads: ClassInfo = prog.find_class("BADS")
         self.bads_init: FunctionInfo = self._need(self.bads.find_method("__init__"), "BADS.__init__")
         self.optimize: FunctionInfo = self._need(self.bads.find_method("optimize"), "BADS.optimize")
+        # a public ``optimize`` that only wraps the run in a try statement (to add context to an exception, to log): the role is played by the wrapped method; the wrappers are kept for the rules about exception propagation
+        self.optimize_wrappers = []
+        for _ in range(3):
+            body = [b for b in self.optimize.node.body if not (isinstance(b, ast.Expr) and isinstance(b.value, ast.Constant))]
+            if len(body) != 1 or not isinstance(body[0], ast.Try) or body[0].orelse or body[0].finalbody:
+                break
+            tb = body[0].body
+            call = None
+            if len(tb) == 1 and isinstance(tb[0], ast.Return) and isinstance(tb[0].value, ast.Call):
+                call = tb[0].value
+            elif len(tb) == 2 and isinstance(tb[0], ast.Assign) and isinstance(tb[0].value, ast.Call) and isinstance(tb[1], ast.Return) and isinstance(tb[1].value, ast.Name) \
+                    and len(tb[0].targets) == 1 and isinstance(tb[0].targets[0], ast.Name) and tb[0].targets[0].id == tb[1].value.id:
+                call = tb[0].value
+            if call is None or not (isinstance(call.func, ast.Attribute) and isinstance(call.func.value, ast.Name) and call.func.value.id == "self") or call.args or call.keywords:
+                break
+            inner = self.bads.find_method(call.func.attr)
+            if inner is None or inner is self.optimize:
+                break
+            # (what the handlers do with the exception is C10-R3's business; the role is the wrapped method either way)
+            self.optimize_wrappers.append(self.optimize)
+            self.optimize = inner
         self.transformer: ClassInfo = prog.find_class("VariableTransformer")
         self.inverse: FunctionInfo = self._need(self.transformer.find_method("inverse_transf"), "VariableTransformer.inverse_transf")
         self.direct: FunctionInfo = self._need(self.transformer.find_method("__call__"), "VariableTransformer.__call__")
